@@ -31,6 +31,16 @@ type Ledger struct {
 	Payouts  map[string]*big.Int // per address: sum paid out by Withdraw
 	Funded   map[string]*big.Int // per address: sum taken by Fund
 	duration time.Duration
+	// RefuseEarly: a Withdraw inside a running challenge period is refused (as a contract would
+	// revert) instead of waiting for the period to end (as a backend's conclude step may do);
+	// both are legitimate adjudicators. Early lists the refused calls.
+	RefuseEarly bool
+	Early       []earlyRec
+}
+
+type earlyRec struct {
+	Ch channel.ID
+	By channel.Index
 }
 
 type regRec struct {
@@ -335,6 +345,11 @@ func (p *ledgerParty) Withdraw(ctx context.Context, req channel.AdjudicatorReq, 
 		case !c.reg.IsFinal && time.Now().Before(c.timeout):
 			// a real backend's conclude step waits for the challenge period; a registration of a
 			// higher version meanwhile restarts it and invalidates this request (re-checked above).
+			if l.RefuseEarly {
+				l.Early = append(l.Early, earlyRec{req.Params.ID(), req.Idx})
+				l.Log = append(l.Log, fmt.Sprintf("withdraw idx=%d REFUSED (challenge period running) at %v", req.Idx, time.Now().Unix()))
+				return fmt.Errorf("withdraw: challenge period not over")
+			}
 			if err := (&vtimeout{c.timeout}).Wait(ctx); err != nil {
 				return fmt.Errorf("withdraw: waiting for the challenge period: %v", err)
 			}
